@@ -39,10 +39,10 @@ pub open spec fn names_upto(t: &HirTable, b: &ImplBlock, k: int) -> Set<Seq<char
     }
 }
 // entry i defines a name that is taken (earlier impl block of the same key, or the other kind of key) or that an earlier entry of this block defines
-pub open spec fn ambiguous_at(tb: InherentTable, key: InherentImplKey, for_ty: Ty, t: &HirTable, b: &ImplBlock, i: int) -> bool {
+pub open spec fn ambiguous_at(tb: PkgEnv, key: InherentImplKey, for_ty: Ty, t: &HirTable, b: &ImplBlock, i: int) -> bool {
     meth_name(t, b, i) matches Some(n) && (is_taken(tb, key, for_ty, n) || names_upto(t, b, i).contains(n))
 }
-pub open spec fn any_ambiguous(tb: InherentTable, key: InherentImplKey, for_ty: Ty, t: &HirTable, b: &ImplBlock, k: int) -> bool
+pub open spec fn any_ambiguous(tb: PkgEnv, key: InherentImplKey, for_ty: Ty, t: &HirTable, b: &ImplBlock, k: int) -> bool
     decreases k,
 {
     k > 0 && (ambiguous_at(tb, key, for_ty, t, b, k - 1) || any_ambiguous(tb, key, for_ty, t, b, k - 1))
@@ -59,9 +59,31 @@ pub open spec fn overlap_defined(t: InherentTable, key: InherentImplKey, for_ty:
             && #[trigger] t.methods(k).dom().contains(n),
     }
 }
-// n is taken for this impl block: defined at the same key already, or under the other kind of key for the same constructor
-pub open spec fn is_taken(t: InherentTable, key: InherentImplKey, for_ty: Ty, n: Seq<char>) -> bool {
-    t.methods(key).dom().contains(n) || overlap_defined(t, key, for_ty, n)
+// n is taken for this impl block: defined at the same key already, or under the other kind of key for the same constructor, or the name of a
+// variant of the enum the block is for (`T::n(..)` is then the constructor while `x.n(..)` would be the method)
+pub open spec fn is_taken(e: PkgEnv, key: InherentImplKey, for_ty: Ty, n: Seq<char>) -> bool {
+    e.trait_env.inherent_impls.methods(key).dom().contains(n) || overlap_defined(e.trait_env.inherent_impls, key, for_ty, n) || variant_named(e, for_ty, n)
+}
+// ---- a method named like a variant of its own enum ----
+pub struct TastIdent(pub String);
+pub struct EnumDef { pub variants: Vec<(TastIdent, Vec<Ty>)> }      // env::EnumDef: only the variant list is read
+#[verifier::external_body] pub struct EnumTable { _p: u64 }        // IndexMap<TastIdent, EnumDef>, keyed by the TEXT of the name
+impl EnumTable {
+    pub uninterp spec fn def_of(&self, name: Seq<char>) -> Option<EnumDef>;
+    #[verifier::external_body] pub fn get(&self, k: &TastIdent) -> (r: Option<&EnumDef>)
+        ensures r matches Some(d) ==> self.def_of(k.0@) == Some(*d), r is None ==> self.def_of(k.0@) is None { unimplemented!() }
+}
+impl PkgEnv {
+    pub uninterp spec fn enum_table(&self) -> EnumTable;
+    #[verifier::external_body] pub fn enums(&self) -> (r: &EnumTable) ensures *r == self.enum_table() { unimplemented!() }
+}
+#[verifier::external_body] pub fn string_eq_str(a: &String, b: &str) -> (r: bool) ensures r == (a@ == b@) { unimplemented!() }      // `a == b` for a: String, b: &str
+pub open spec fn declares_variant(d: EnumDef, n: Seq<char>) -> bool {
+    exists|i: int| 0 <= i < d.variants@.len() && (#[trigger] d.variants@[i]).0.0@ == n
+}
+// C17: for_ty is (an instance of) an enum that declares a variant called n
+pub open spec fn variant_named(e: PkgEnv, for_ty: Ty, n: Seq<char>) -> bool {
+    constr_name_of(for_ty) matches Some(c) && (e.enum_table().def_of(c) matches Some(d) && declares_variant(d, n))
 }
 // ---- toplevel::inherent_method_overlaps itself (verified; these are its callees) ----
 #[verifier::external_body] pub fn try_constr_name(t: &Ty) -> (r: Option<String>)
